@@ -391,6 +391,10 @@ func checkC19(c *Check) {
 		ruleIsValid(c, p, "R19.4")
 		ruleValidFrameHeader(c, p, "R19.5")
 		ruleContentSize(c, p, "R19.6")
+		c.only(func(k string) bool { return strings.Contains(k, "FrameDescriptor.initR") || strings.Contains(k, "descriptor") }, func() { ruleEOFProvenance(c, p, "R19.9", true) })
+		c.RuleDoc["R19.9"] = "= R06.1 for the descriptor: its bytes are read with io.ReadFull (a single Read may return part of the content size and leave the check byte unread)"
+		c.only(func(k string) bool { return strings.HasPrefix(k, "descriptorChecksum#") || strings.HasPrefix(k, "FrameDescriptor.Write#hash-range") }, func() { ruleDescriptorConstants(c, p, "R19.10") })
+		c.RuleDoc["R19.10"] = "= R13.8: the header check byte covers the whole descriptor, content size included"
 		ruleHeaderParsers(c, p, "R19.7")
 		c.RuleDoc["R19.7"] = "who parses a header: Reader.init and ValidFrameHeader (which hands its whole input to the parser)"
 		c.RuleDoc["R19.8"] = "Reset re-arms the frame on every path, so the next stream's header is parsed afresh (= R17.4)"
